@@ -213,6 +213,7 @@ func (g *Gen) execInstr(fr *Frame, st *State, in ssa.Instruction, r string) bool
 			if fr.noPanic && p.Kind == pField && len(p.Path) == 1 && strings.HasPrefix(p.Struct, "ptr$") {
 				g.panicObl(fr, in, r, "nil-deref", sNot(sEq(p.Base, "0")))
 			}
+			g.guardedAccess(fr, st, p, in, r, "write")
 			g.storePtr(st, p, v)
 		} else {
 			g.vc.note("unmodelled", fmt.Sprintf("store through unresolved pointer %s in %s", x.Addr.Type(), fr.key))
@@ -465,8 +466,10 @@ func (g *Gen) unop(fr *Frame, st *State, x *ssa.UnOp, r string) Val {
 		if fr.noPanic && p.Kind == pField && (len(p.Path) == 0 || strings.HasPrefix(p.Struct, "ptr$")) {
 			g.panicObl(fr, x, r, "nil-deref", sNot(sEq(p.Base, "0")))
 		}
+		g.guardedAccess(fr, st, p, x, r, "read")
 		lv := g.loadPtr(st, p)
 		lv.Ty = x.Type()
+		g.preexisting(lv)
 		if lv.S == "Slice" || (lv.S == "Int" && !g.bv) {
 			// slices read from memory are well formed; integers respect their type's range
 			if g.dry == 0 {
@@ -1055,8 +1058,12 @@ func (g *Gen) emptySet(ks string) string {
 }
 
 // mapLenKey: maplen$ is a function of a per-map "version" token; we key it on a fresh Int that changes on update.
+func (g *Gen) mlenHeap(mt *types.Map) string {
+	return "MLEN$" + sanitize(g.sortOf(mt.Key())) + "$" + sanitize(g.sortOf(mt.Elem()))
+}
+
 func (g *Gen) mapLenKey(st *State, mt *types.Map, ref string) string {
-	h := g.heapTerm(st, "MLEN$", "(Array Int Int)")
+	h := g.heapTerm(st, g.mlenHeap(mt), "(Array Int Int)")
 	return fmt.Sprintf("(select %s %s)", h, ref)
 }
 
@@ -1081,9 +1088,9 @@ func (g *Gen) mapUpdate(fr *Frame, st *State, x *ssa.MapUpdate) {
 
 func (g *Gen) bumpMapLen(st *State, mt *types.Map, ref, newLen string) {
 	tok := g.vc.freshConst("mlen", "Int")
-	lh := g.heapTerm(st, "MLEN$", "(Array Int Int)")
+	lh := g.heapTerm(st, g.mlenHeap(mt), "(Array Int Int)")
 	nl := g.vc.define("mlenv", "Int", newLen)
-	g.setHeap(st, "MLEN$", "(Array Int Int)", fmt.Sprintf("(store %s %s %s)", lh, ref, tok), ref)
+	g.setHeap(st, g.mlenHeap(mt), "(Array Int Int)", fmt.Sprintf("(store %s %s %s)", lh, ref, tok), ref)
 	g.vc.assume("", fmt.Sprintf("(= (maplen$ %s) %s)", tok, nl))
 }
 
@@ -1172,6 +1179,11 @@ func (g *Gen) selectOp(fr *Frame, st *State, x *ssa.Select, r string) Val {
 	var anyKnownClosed []string
 	for i, s := range x.States {
 		c := fr.val(s.Chan)
+		if strings.HasPrefix(c.T, "(ctxdonech$ ") {
+			g.vc.decl("ctxdone$", "(declare-fun ctxdone$ (Int) Bool)")
+			ctx := strings.TrimSuffix(strings.TrimPrefix(c.T, "(ctxdonech$ "), ")")
+			g.vc.assume(r, fmt.Sprintf("(=> (= %s %d) (ctxdone$ %s))", idx, i, ctx))
+		}
 		if s.Dir == types.RecvOnly && g.isInternalChan(s.Chan) {
 			g.vc.assume(r, fmt.Sprintf("(=> (= %s %d) (select %s %s))", idx, i, ch, c.T))
 			anyKnownClosed = append(anyKnownClosed, fmt.Sprintf("(select %s %s)", ch, c.T))
@@ -1225,6 +1237,15 @@ func (g *Gen) returnClauses(fr *Frame, st *State, x *ssa.Return, vs []Val, r str
 	for _, cl := range fr.fc.Returns {
 		v, err := g.evalBool(cl.Expr, env)
 		if err != nil {
+			// variables that are out of scope at this return: sub-formulas mentioning them are replaced by
+			// false in positive and true in negative position, which only strengthens the obligation
+			if lv, ok := g.evalLenient(cl.Expr, env, true); ok {
+				g.addObligation(&Obligation{Name: fmt.Sprintf("%s.return#%d.%s", fr.key, k, cl.Name), Func: fr.key, Kind: "returns", Props: cl.Props,
+					Guard: r, Goal: lv, Src: cl.Src + "   [out-of-scope parts strengthened: " + err.Error() + "]", Pos: g.posOf(x)})
+				continue
+			}
+		}
+		if err != nil {
 			// a clause may mention variables that are not in scope at this return: it then must be vacuous there,
 			// i.e. its antecedent must be false; we require the clause to be of the form A ==> B and check !A.
 			if cl.Expr.Op == "bin" && cl.Expr.Name == "==>" {
@@ -1240,4 +1261,97 @@ func (g *Gen) returnClauses(fr *Frame, st *State, x *ssa.Return, vs []Val, r str
 		g.addObligation(&Obligation{Name: fmt.Sprintf("%s.return#%d.%s", fr.key, k, cl.Name), Func: fr.key, Kind: "returns", Props: cl.Props,
 			Guard: r, Goal: v, Src: cl.Src, Pos: g.posOf(x)})
 	}
+}
+
+// guardedAccess emits the lock-discipline obligation for an access to a guarded field.
+func (g *Gen) guardedAccess(fr *Frame, st *State, p *Ptr, in ssa.Instruction, r, what string) {
+	if g.dry > 0 || p.Kind != pField || len(p.Path) == 0 || len(g.cs.Guards) == 0 {
+		return
+	}
+	for _, gb := range g.cs.Guards {
+		if sanitize(gb.Struct) != p.Struct {
+			continue
+		}
+		hit := false
+		for _, f := range gb.Fields {
+			if f == p.Path[0] {
+				hit = true
+			}
+		}
+		if !hit {
+			continue
+		}
+		mu := &Ptr{Kind: pField, Base: p.Base, Struct: p.Struct, Path: []string{gb.Mutex}}
+		held := sNot(sEq(g.heldTerm(st, g.ptrTerm(mu)), "0"))
+		tf := fr
+		for tf.parent != nil {
+			tf = tf.parent
+		}
+		tf.callIdx["guard:"+p.Path[0]]++
+		g.addObligation(&Obligation{Name: fmt.Sprintf("%s.guarded[%s.%s].%s#%d", fr.topKey(), gb.Struct, p.Path[0], what, tf.callIdx["guard:"+p.Path[0]]), Func: fr.topKey(), Kind: "lock",
+			Props: gb.Props, Guard: r, Goal: sOr(fmt.Sprintf("(fresh$ %s)", p.Base), held), Src: fmt.Sprintf("%s of %s.%s requires %s to be held (or the object not yet shared)", what, gb.Struct, p.Path[0], gb.Mutex), Pos: g.posOf(in)})
+	}
+}
+
+// preexisting: a reference read from a heap that has not been written since function entry denotes an object
+// that existed before the call, hence is different from everything allocated during it.
+func (g *Gen) preexisting(v Val) {
+	if v.S != "Int" || v.Ty == nil || g.dry > 0 {
+		return
+	}
+	switch types.Unalias(v.Ty).Underlying().(type) {
+	case *types.Pointer, *types.Map, *types.Chan:
+	default:
+		return
+	}
+	if strings.HasPrefix(v.T, "(select H0$") && strings.Count(v.T, "(") == 1 {
+		g.vc.assume("", fmt.Sprintf("(<= (allocid$ %s) 0)", v.T))
+	}
+}
+
+// evalLenient evaluates a boolean contract expression, replacing sub-formulas that cannot be evaluated at this
+// program point (identifiers not in scope) by false (positive position) or true (negative position).
+func (g *Gen) evalLenient(x *CExpr, env *Env, pos bool) (string, bool) {
+	if x.Op == "bin" {
+		switch x.Name {
+		case "&&", "||":
+			a, ok1 := g.evalLenient(x.Args[0], env, pos)
+			b, ok2 := g.evalLenient(x.Args[1], env, pos)
+			if !ok1 || !ok2 {
+				return "", false
+			}
+			if x.Name == "&&" {
+				return sAnd(a, b), true
+			}
+			return sOr(a, b), true
+		case "==>":
+			a, ok1 := g.evalLenient(x.Args[0], env, !pos)
+			b, ok2 := g.evalLenient(x.Args[1], env, pos)
+			if !ok1 || !ok2 {
+				return "", false
+			}
+			return sImp(a, b), true
+		}
+	}
+	if x.Op == "un" && x.Name == "!" {
+		a, ok := g.evalLenient(x.Args[0], env, !pos)
+		if !ok {
+			return "", false
+		}
+		return sNot(a), true
+	}
+	v, err := g.eval(x, env)
+	if err != nil {
+		if strings.Contains(err.Error(), "unknown identifier") || strings.Contains(err.Error(), "unknown location") {
+			if pos {
+				return "false", true
+			}
+			return "true", true
+		}
+		return "", false
+	}
+	if v.S != "Bool" {
+		return "", false
+	}
+	return v.T, true
 }
